@@ -63,7 +63,7 @@ pub fn unhex(s: &str) -> Vec<u8> {
 
 /// The io::ErrorKind variants the scripted sinks / writers can return, by index.
 /// Index 4 is `Interrupted` (retried by `BufWriter::flush_buf`).
-pub const KINDS: [io::ErrorKind; 16] = [
+pub const KINDS: [io::ErrorKind; 32] = [
     io::ErrorKind::NotFound,
     io::ErrorKind::PermissionDenied,
     io::ErrorKind::ConnectionRefused,
@@ -80,6 +80,23 @@ pub const KINDS: [io::ErrorKind; 16] = [
     io::ErrorKind::TimedOut,
     io::ErrorKind::WriteZero,
     io::ErrorKind::Other,
+    // (the first sixteen keep their historical indices: corpus and seeded-change replays name them)
+    io::ErrorKind::NetworkDown,
+    io::ErrorKind::NetworkUnreachable,
+    io::ErrorKind::HostUnreachable,
+    io::ErrorKind::AddrNotAvailable,
+    io::ErrorKind::UnexpectedEof,
+    io::ErrorKind::OutOfMemory,
+    io::ErrorKind::Unsupported,
+    io::ErrorKind::StorageFull,
+    io::ErrorKind::ResourceBusy,
+    io::ErrorKind::QuotaExceeded,
+    io::ErrorKind::FileTooLarge,
+    io::ErrorKind::ArgumentListTooLong,
+    io::ErrorKind::Deadlock,
+    io::ErrorKind::NotADirectory,
+    io::ErrorKind::ReadOnlyFilesystem,
+    io::ErrorKind::StaleNetworkFileHandle,
 ];
 
 pub fn kind_index(k: io::ErrorKind) -> usize {
